@@ -541,7 +541,7 @@ def coq_tc(d, uuid):
         cstr(d["metadata_schema"]), "; ".join(tab(t) for t in sc["load_order"]), ix, rst)
 
 
-PRELUDE = ("From TskVerif Require Import Base.Common Gen.Generated C05.Bytes C05.Kastore C05.TskFile.\n"
+PRELUDE = ("From TskVerif Require Import Base.Common Gen.Generated C05.Bytes C05.Kastore C05.TskFile C10.Corrupt.\n"
            "Open Scope Z_scope.")
 
 
@@ -586,11 +586,11 @@ class Roundtrip(Family):
             descs = [gen_desc(rng, maxrows=rng.choice([1, 2, 4, 6]), tiny=rng.random() < 0.2) for _ in range(k)]
             yield {"descs": descs, "build": rng.choice(["fromdict", "fromdict64", "setcols", "fromdict_strided",
                                                          "fromdict_reversed", "setcols_strided", "setcols_reversed"]),
-                   "buffered": rng.random() < 0.5, "valid": False}
+                   "buffered": rng.random() < 0.5, "valid": False, "tail_k": rng.choice([0, 1, 1, 2])}
         for i in range(n_valid):
             k = rng.choice([1, 1, 2])
             yield {"descs": [valid_ts_desc(rng) for _ in range(k)], "build": "fromdict",
-                   "buffered": rng.random() < 0.5, "valid": True}
+                   "buffered": rng.random() < 0.5, "valid": True, "tail_k": rng.choice([0, 1, 2])}
 
     # -- implementation side -------------------------------------------------
     def observe(self, case):
@@ -758,6 +758,66 @@ class Roundtrip(Family):
                     except Exception as e:
                         r.append([exc_name(e), fd_pos(f)])
                 st["skip"][kwname] = r
+            # truncated tail: after k complete objects the stream ends inside a further object (every
+            # header offset 1..16, then a grid up to 65, descriptor/key/array cuts).  Only a stream that
+            # ends exactly at an object boundary may give EOFError.
+            cuts = sorted(set(list(range(1, 17)) + [20, 24, 31, 32, 33, 40, 48, 56, 62, 63, 64, 65, 100, 128, 129,
+                                                    len(fb) // 2, len(fb) - 37, len(fb) - 9, len(fb) - 1]))
+            cuts = [c for c in cuts if 0 < c < len(fb)]
+            tails = []
+
+            def outcome_of(fn):
+                try:
+                    fn()
+                    return "loaded"
+                except Exception as e:
+                    return exc_name(e)
+            tq = os.path.join(tmp, "tail.trees")
+            nfull = case.get("tail_k", 1)
+            for c in cuts:
+                # (A) file object, eager: nfull complete objects, then the cut one
+                with open(tq, "wb") as f:
+                    for _ in range(nfull):
+                        f.write(fb)
+                    f.write(fb[:c])
+                with open(tq, "rb", **({} if case["buffered"] else {"buffering": 0})) as f:
+                    okc = 0
+                    for _ in range(nfull):
+                        okc += outcome_of(lambda: tskit.TableCollection.load(f)) == "loaded"
+                    o = outcome_of(lambda: tskit.TableCollection.load(f))
+                    tails.append(["fileobj", c, o if okc == nfull else "complete objects did not load"])
+                if case["valid"] and c in (1, 7, 8, 9, 16, 63, 64, 65, cuts[-1], cuts[-3]):
+                    with open(tq, "rb") as f:
+                        okc = 0
+                        for _ in range(nfull):
+                            okc += outcome_of(lambda: tskit.load(f)) == "loaded"
+                        o = outcome_of(lambda: tskit.load(f))
+                        tails.append(["tskit.load", c, o if okc == nfull else "complete objects did not load"])
+                # (B) a file that consists of the cut object only: path, eager and skip_* read paths
+                if c <= 16 or c in (63, 64, 65, cuts[-1], cuts[-2], cuts[-3]):
+                    with open(tq, "wb") as f:
+                        f.write(fb[:c])
+                    tails.append(["path", c, outcome_of(lambda: tskit.TableCollection.load(tq))])
+                    tails.append(["path:skip_tables", c, outcome_of(lambda: tskit.TableCollection.load(tq, skip_tables=True))])
+                    tails.append(["path:skip_reference_sequence", c,
+                                  outcome_of(lambda: tskit.TableCollection.load(tq, skip_reference_sequence=True))])
+                # (C) a pipe (not seekable): one complete object, then the cut one
+                if c in (1, 8, 9, 15, 16, 63, 64, cuts[-1]):
+                    import threading
+                    r, w = os.pipe()
+
+                    def feed():
+                        with os.fdopen(w, "wb") as wf:
+                            wf.write(fb)
+                            wf.write(fb[:c])
+                    th = threading.Thread(target=feed)
+                    th.start()
+                    with os.fdopen(r, "rb", buffering=0) as rf:
+                        first = outcome_of(lambda: tskit.TableCollection.load(rf))
+                        o = outcome_of(lambda: tskit.TableCollection.load(rf))
+                    th.join()
+                    tails.append(["pipe", c, o if first == "loaded" else "complete object did not load: " + first])
+            st["tails"] = tails
             # a file that is not a kastore at all must give a *different* exception
             junk = os.path.join(tmp, "junk")
             with open(junk, "wb") as f:
@@ -819,6 +879,16 @@ class Roundtrip(Family):
             exp = [["ok", sz] for sz in st["sizes"]] + [["EOFError", st["sizes"][-1]]]
             if r != exp:
                 out.append(("stream-consumed:" + kwname, "loads with %s=True on a stream of %d objects gave %s, expected %s" % (kwname, len(st["sizes"]), r, exp)))
+        for via, c, o in st.get("tails", []):
+            if o == "EOFError":
+                out.append(("stream-truncated-tail:eof:" + via.split(":")[0],
+                            "a stream ending %d bytes into a further object was reported as a clean end-of-stream (EOFError) via %s" % (c, via)))
+            elif o == "loaded":
+                out.append(("stream-truncated-tail:loaded:" + via.split(":")[0], "a trailing object cut after %d bytes was loaded via %s" % (c, via)))
+            elif o.startswith("complete object"):
+                out.append(("stream-tail-setup", "%s (%s, cut %d)" % (o, via, c)))
+            elif o.split(":")[0] not in ("FileFormatError", "LibraryError", "VersionTooOldError", "VersionTooNewError", "OSError"):
+                out.append(("stream-truncated-tail:exception:" + o.split(":")[0], "cut %d via %s: %s" % (c, via, o)))
         if st["end"] != "EOFError" or st["end2"] != "EOFError":
             out.append(("stream-eof", "end of stream gave %s / %s, expected EOFError" % (st["end"], st["end2"])))
         if st["junk"] == "EOFError" or st["junk"] == "loaded":
@@ -835,7 +905,16 @@ class Roundtrip(Family):
         d = case["descs"][0]
         tc = coq_tc(d, uuid)
         # model dump = file bytes; model load of the file = the same collection
+        from harness.props import c10
+        tl = []
+        for via, c, o in obs["stream"].get("tails", []):
+            if via.startswith("path") and o not in ("loaded",) and not o.startswith("complete"):
+                sk = "true" if via == "path:skip_tables" else "false"
+                sr = "true" if via == "path:skip_reference_sequence" else "false"
+                tl.append("verdict_agrees (load_verdict %s %s (firstn (Z.to_nat %d) f)) %s" % (sk, sr, c, c10.vcode(o, "tc")))
+        tails_term = " && ".join(tl) if tl else "true"
         return ("(let f := %s in let tc := %s in "
+                "(" + tails_term + ") && "
                 "zlist_eqb (tsk_dump_bytes tc) f && "
                 "match tsk_load_bytes false false f with Ok (tc', rest) => tcoll_eqb tc' (tc_normalise tc) && zlist_eqb rest [] | _ => false end)"
                 % (clist(fb), tc))
